@@ -18,6 +18,10 @@ type Writer struct {
 // NewWriter makes a new Writer and immediately writes the given Header
 // to begin the file.
 func NewWriter(w io.Writer, hdr Header) (*Writer, error) {
+	if hdr.Source.To4() == nil {
+		return nil, errNotIPv4
+	}
+
 	preamble := fmt.Sprintf(
 		"#!rtpplay1.0 %s/%d\n",
 		hdr.Source.To4().String(),
